@@ -46,7 +46,10 @@ realkeys = st.sampled_from(['Title', 'Author', 'Date', 'Keywords', 'Copyright', 
 anykey = st.one_of(key, key, realkeys)
 val1 = st.text(alphabet=VALCH, min_size=1, max_size=14)
 URLS = st.sampled_from(['http://creativecommons.org/licenses/by/4.0/', 'https://example.org/a?b=1', 'ftp://files.example.com/x'])
-entry = st.tuples(anykey, val1, st.lists(st.one_of(val1, val1, URLS), max_size=2), st.sampled_from([' ', '\t', '  ', '', ' \t ']), st.sampled_from(['', '  ', '\t', '    ']))
+# continuation lines that other line scanners could claim: a whole block-level HTML element, and (indented only) text shaped like a key line
+HTMLC = st.sampled_from(['<footer class="f">me</footer>', '<div>x</div>', '<hr>', '<p>para</p>', '<table><tr><td>c</td></tr></table>'])
+KEYSHAPED = st.sampled_from(['see also: the appendix', 'note: x', 'a b: c'])
+entry = st.tuples(anykey, val1, st.lists(st.one_of(val1, val1, URLS, HTMLC, KEYSHAPED), max_size=2), st.sampled_from([' ', '\t', '  ', '', ' \t ']), st.sampled_from(['', '  ', '\t', '    ', ' ', ' ']))
 opst = st.tuples(st.sampled_from(['existing', 'existing', 'new']), st.integers(0, 7), st.integers(0, 3), st.one_of(val1, val1, st.none()), anykey)
 
 
@@ -56,6 +59,7 @@ def strategy(tier):
         'term': st.sampled_from(['body', 'body', 'eofnl', 'eof']),
         'nl': st.sampled_from(['\n', '\n', '\r\n']),
         'yaml': st.sampled_from([0, 0, 1]),
+        'trail': st.sampled_from(['', '', '  ', ' ', '\t', '   ']),     # white space at the end of every metadata line (two blanks make a hard line break elsewhere)
         'glued': st.sampled_from([False, False, True]),     # a key-shaped line directly after the closing fence (no blank line): it belongs to the body
         'dashes': st.sampled_from([3, 3, 3, 4, 7, 2, 1]),     # length of the opening fence; below three dashes the line is no fence, and then queries and conversion must agree on that
         'body': st.sampled_from(['Body text here.', '# Heading\n\ntext *em* &amp; more', 'a: not meta\n\n* list', '   indented body', '中文 body']),
@@ -88,8 +92,10 @@ def sanitize_value(v, first_line=True, sep=' '):
     return v
 
 
-def sanitize_cont(c):
+def sanitize_cont(c, ind=''):
     c = c.rstrip('\\')
+    if c in ('see also: the appendix', 'note: x', 'a b: c'):
+        return c if ind else None          # a key-shaped line continues the value only when it is indented
     if re.fullmatch(r'(https?|ftp)://[A-Za-z0-9./?=_-]+', c):
         return c          # a line that scans as a URL is not a key line (documented precedence), so it continues the value, indented or not
     if ':' in c or not any(ch.isascii() and ch.isalnum() for ch in c):
@@ -113,7 +119,7 @@ def build(case):
         v2 = sanitize_value(v, True, sep)
         if v2 is None:
             continue
-        conts = [c2 for c2 in (sanitize_cont(c) for c in cont) if c2 is not None]
+        conts = [c2 for c2 in (sanitize_cont(c, ind) for c in cont) if c2 is not None]
         seen.add(nk)
         ents.append((k, nk, sep, v2, ind, conts))
     if not ents:
@@ -123,9 +129,9 @@ def build(case):
         ents.append((respell(k, case['dup'] % 4), nk, ' ', 'second occurrence', '', []))
     lines = []
     for (k, nk, sep, v, ind, conts) in ents:
-        lines.append(k + ':' + sep + v)
+        lines.append(k + ':' + sep + v + case.get('trail', ''))
         for c in conts:
-            lines.append(ind + c)
+            lines.append(ind + c + case.get('trail', ''))
     src = ''
     fence_open = {0: None, 1: '-' * case.get('dashes', 3), 2: '---'}[case['yaml']]
     fence_close = {0: None, 1: '---', 2: '...'}[case['yaml']]
